@@ -418,12 +418,23 @@ def stepsDisjoint (P : Params) (cfg : Cfg) (fs : List Fld) (init : Val) (steps :
     | .error _ => true
   | _ => true
 
+/-- the hypothesis `DocTyped` of `bindStepsAll_errors_meet_spec`: what the standard library decoded is a well-typed
+    value of the destination type -/
+def docsTyped (fs : List Fld) (steps : List Step) : Bool :=
+  (Spec.bodiesOf steps).all fun r =>
+    let ok := fun (d : Dec) => match d with
+      | .ok (.struct js) => wts fs js
+      | .ok _ => false
+      | _ => true
+    ok r.doc.lax && ok r.doc.strict
+
 def stepJAll (id : String) (c : JCase) (obs : List String) : String :=
   match runP pObsAllB obs with
   | some o =>
     match c.ty, c.init with
     | .struct fs, .struct ivs =>
-      if !(wts fs ivs && Spec.inGrammarFs fs && stepsOK c.steps && tblOK c.tbl && (Spec.bodiesOf c.steps).length ≤ 1) then
+      if !(wts fs ivs && Spec.inGrammarFs fs && stepsOK c.steps && tblOK c.tbl && (Spec.bodiesOf c.steps).length ≤ 1 &&
+           docsTyped fs c.steps) then
         s!"{id} bad-case preconditions"
       else
         let P := lookupP c.tbl
